@@ -182,3 +182,40 @@ def rule_ownership_guard(ctx):
     else:
         r.bad(Finding("ownership-guard", "kron", "over-produced rows are not trimmed at both ends (no row slice whose lower bound derives from the start and whose upper bound derives from the stop of the range)", where=where, operand="trim"))
     return r
+
+
+def rule_ptr_recursion_base(ctx):
+    r = RuleResult(
+        "ptr-recursion-base",
+        "the sparse partial trace removes one non-kept subsystem per recursion step, chosen as the largest one *not in keep*; when every "
+        "remaining subsystem is kept that choice degenerates to a kept subsystem, so the recursion needs a base case that returns before "
+        "the choice whenever len(keep) == len(dims) (dimension-1 subsystems between kept blocks stop the merging of kept neighbours from "
+        "reducing keep to a single block)",
+    )
+    f = ctx.prog.func(CORE, "_partial_trace_simple")
+    if f is None:
+        raise AnalysisError("ptr-recursion-base: quimb.core._partial_trace_simple not found")
+    lose = [c for c in ast.walk(f.node) if isinstance(c, ast.Call) and (dotted(c.func) or "").split(".")[-1] == "_trace_lose"]
+    if not lose:
+        raise AnalysisError("ptr-recursion-base: _partial_trace_simple no longer calls _trace_lose")
+    first = min(c.lineno for c in lose)
+    params = f.posparams
+
+    def lens(e):
+        return {x.args[0].id for x in ast.walk(e) if isinstance(x, ast.Call) and dotted(x.func) == "len" and x.args and isinstance(x.args[0], ast.Name)}
+
+    guard = None
+    for st in f.node.body:
+        if isinstance(st, ast.If) and st.lineno < first and any(isinstance(x, ast.Return) for x in st.body):
+            for cmp_ in ast.walk(st.test):
+                if isinstance(cmp_, ast.Compare) and len(cmp_.ops) == 1 and isinstance(cmp_.ops[0], (ast.Eq, ast.GtE)):
+                    names = lens(cmp_)
+                    if len(names) >= 2:     # len(keep) against len(dims), whatever the locals are called
+                        guard = st
+    where = f"{f.module.relpath}:{first}"
+    if guard is not None:
+        r.ok("_partial_trace_simple", sample={"base case": src_of(guard.test)})
+    else:
+        r.bad(Finding("ptr-recursion-base", "_partial_trace_simple", "no base case for `every remaining subsystem is kept` before the subsystem to lose is chosen: a kept subsystem is traced out "
+                                                                       "(e.g. dims [2, 1, 2], keep [0, 2])", where=where, operand="base"))
+    return r
